@@ -20,6 +20,7 @@ from pyvc.engine import Contract, Atomic, Loop
 from pyvc.prop import Property, Structural, Bounded, BoundedResult
 from harness.e2e_converge import bounded_converge
 from . import dictmbx as D
+from . import state as ST
 from . import modseq as M
 from .dictmbx import MBX, Msg, F, Flag
 from .modseq import RI, kind_upd, kind_exp, ri_clauses
@@ -308,7 +309,8 @@ from pyvc.prop import Lemma  # noqa: E402
 
 PROPERTY = Property(
     'C02', 'Cross-session convergence: no lost, phantom or stuck updates',
-    contracts=CONTRACTS + [update_selected, sel_add_updates, SELM.silence], registry=REG,
+    contracts=CONTRACTS + [update_selected, sel_add_updates, SELM.silence, ST.do_store],
+    registry=dict(list(ST.REG.items()) + list(REG.items())),
     lemmas=[Lemma('C02/lemma/agree_up_to_is_stable_under_the_writers_guarantee', lemma_agree_stable),
             Lemma('C02/lemma/deferred_expunges_stay_expunged', lemma_deferred_stable)],
     factories={'FSet': lambda name, attrs, ctx: frozenset()},      # Msg.flags_key (declared by contracts/selected.py) in replays
